@@ -1,0 +1,50 @@
+//go:build verif
+
+// Contracts for the bundle processing pipeline of routing.Core (see /verif/DESIGN.md). Comment-only.
+
+package routing
+
+// ---- store key = assigned id (C14) ----
+
+// The descriptor of a bundle is filed under the bundle's current id and wraps a private copy of the bundle.
+// (Assumed: the body pushes the copy into the store under descriptor.Id - storage is outside reach, C08.)
+// govc:trusted NewBundleDescriptorFromBundle
+//@ assigns store.$qok
+//@ ensures result.bndl != nil && result.Id == b.ID() && result.Constraints != nil && result.store == store
+//@ ensures result.bndl.PrimaryBlock == b.PrimaryBlock && sameSlice(result.bndl.CanonicalBlocks, b.CanonicalBlocks)
+//@ ensures uf("storedUnder", "bpv7.BundleID", store, ref(result.bndl)) == b.ID()
+
+// What the routing algorithm does with a new bundle never touches the bundle's primary block or the id keeper.
+// govc:ghostfield $algoState uint64
+// govc:iface Algorithm.NotifyNewBundle
+//@ assigns self.$algoState, arg0.store.$qok
+
+// The three ways a bundle leaves transmit/receive. Their bodies (forwarding, delivery, store updates) are under
+// contract for other properties; what C14 needs from them is their precondition: the id the descriptor is filed
+// under in the store is the id of the bundle that is going to be transmitted.
+// govc:trusted (*Core).dispatching
+//@ requires bp.bndl != nil ==> bp.Id == bp.bndl.ID() @C14
+
+// govc:trusted (*Core).bundleDeletion
+//@ requires bp.bndl != nil ==> bp.Id == bp.bndl.ID() @C14
+
+// govc:trusted (*BundleDescriptor).AddConstraint
+//@ assigns mapof(descriptor.Constraints)
+//@ ensures has(descriptor.Constraints, c)
+
+// govc:trusted (BundleDescriptor).Sync
+//@ assigns descriptor.store.$qok
+
+// A bundle originated at this node gets the successor of the last sequence number used for its (source, creation
+// time) pair - 0 for an untracked pair; the descriptor handed to the processing pipeline is filed in the store under
+// the id carrying exactly that number and wraps a bundle carrying it too.
+// govc:func (*Core).SendBundle property C14
+//@ requires bndl != nil && c.idKeeper.data != nil && c.signPriv == nil && c.routing != nil
+//@ requires has(c.idKeeper.data, newIdTuple(bndl)) ==> c.idKeeper.data[newIdTuple(bndl)] < 18446744073709551615
+//@ atcall transmit: bp.bndl != nil && bp.bndl.PrimaryBlock.CreationTimestamp[1] == (old(has(c.idKeeper.data, newIdTuple(bndl))) ? old(c.idKeeper.data[newIdTuple(bndl)]) + 1 : 0)
+//@ atcall transmit: bp.Id == bp.bndl.ID() && uf("storedUnder", "bpv7.BundleID", c.store, ref(bp.bndl)) == bp.bndl.ID()
+//@ atcall transmit: bp.bndl.PrimaryBlock.SourceNode == old(bndl.PrimaryBlock.SourceNode) && bp.bndl.PrimaryBlock.CreationTimestamp[0] == old(bndl.PrimaryBlock.CreationTimestamp[0])
+
+// transmit hands the bundle on (dispatching) or refuses it (foreign source) under the id it was filed with.
+// govc:func (*Core).transmit property C14
+//@ requires bp.bndl != nil && bp.Constraints != nil && bp.Id == bp.bndl.ID()
